@@ -101,8 +101,8 @@ class ForSys():
         :type when: int, optional
         """
         assert type(self.forces[when]) is not None, "Forces must be calculated first"
-        self.pressures = self.pressure_matrices[when].solve_system(**kwargs)
-        self.frames[when].assign_pressures(self.pressures, self.pressure_matrices[when].mapping_order)
+        self.pressures[when] = self.pressure_matrices[when].solve_system(**kwargs)
+        self.frames[when].assign_pressures(self.pressures[when], self.pressure_matrices[when].mapping_order)
 
 
     def log_force(self, when: int) -> pd.DataFrame:
